@@ -9,15 +9,15 @@ PROP = {
             "8/16/32/64-bit loads and stores, mixed-width scalars, big/little-endian paged memory, indirect branches to existing instruction addresses), "
             "random initial scalars and memory, executor::Driver::step run for up to 200 steps with the complete per-step change set recorded; "
             "62% well-formed stream, 38% malformed stream (undefined scalars, unmapped bytes, zero divisors, intrinsics, non-exhaustive / overlapping / "
-            "unguarded / single-false guards, store at the top of the address space, >64-bit addresses, ill-typed states, non-byte widths, re-lifting); "
+            "unguarded / single-false guards, stores/loads at and over the top of the address space, >64-bit addresses, ill-typed states, non-byte widths, re-lifting); "
             "non-trivial = at least 3 executed steps including a load, store, fan or branch, or a run ending in one of the property's error kinds; "
             "distinct by hash of the canonical case text",
     "trusted_base": [KERNEL, HARNESS_TB, "paged memory as a byte map (property C08)", "indirect-branch re-lifting (translator oracle)"],
     "assumptions": ["paged memory behaves as a byte map (C08)", "program well formed: cfg_inv, wf_expr/wf_op sort rules, wf_names (one width and SSA version per name), "
-                    "guards on every edge of a fan", "widths < 2^64", "no store reaching address 2^64 (top_at)",
+                    "guards on every edge of a fan", "widths < 2^64", "no load/store range wrapping past 2^64 (top_at; property silent on wrapped ranges)",
                     "locations stay applicable along the run (closure of forward/from_address: C18)"],
     "partial": ["re-lifting at indirect-branch targets outside the program: translator oracle, nothing claimed after it",
-                "store whose range ends at or beyond 2^64: excluded (paged::store panics in overflow-checked builds; see notes/C07.md finding 1)",
+                "load/store whose range wraps past 2^64: excluded (property silent; store => Err(Custom), load => None or overflow panic)",
                 "steps_refine assumes the visited locations apply (run_ok); closure under forward/from_address not proved here"],
     "level_text": "Unbounded Coq theorems that the Gallina transcription of State::execute / Driver::step refines the executable IL semantics Exec/Sem.v "
                   "(one step, all step counts, frame, determinism, every error situation reported as Err), plus an in-kernel differential tie of the "
